@@ -295,7 +295,7 @@ fn check(ctx: &Ctx, s: &Script) -> PResult {
 
 /// replay tier: committed seed corpus and saved fuzzer inputs
 fn corpus_replay(ctx: &Ctx) {
-    let root = std::path::Path::new(crate::runner::VERIF_ROOT).join("corpus");
+    let root = std::path::Path::new(crate::runner::verif_root()).join("corpus");
     for dir in ["decoders", "raw_proof", "raw_compressed"] {
         let Ok(rd) = std::fs::read_dir(root.join(dir)) else { continue };
         let mut files: Vec<_> = rd.filter_map(|e| e.ok()).map(|e| e.path()).collect();
@@ -337,7 +337,7 @@ pub fn props() -> Vec<(Box<dyn PropDyn>, u32, u32)> {
 pub fn sweeps(ctx: &Ctx) {
     corpus_replay(ctx);
     // fuzz-campaign crash artefacts and summary (written by tools/fuzz_campaign.sh)
-    let root = std::path::Path::new(crate::runner::VERIF_ROOT);
+    let root = std::path::Path::new(crate::runner::verif_root());
     for dir in ["decoders", "raw_proof", "raw_compressed"] {
         let d = root.join("corpus").join(format!("{dir}-crashes"));
         if let Ok(rd) = std::fs::read_dir(&d) {
